@@ -122,6 +122,34 @@ func runUnlikely(c Case, e *env) []Event {
 		topTable = "<table><tr><th>" + g.words(1) + "</th><th>" + g.words(1) + "</th></tr><tr><td>" + g.words(2) + "</td><td>" + g.words(2) +
 			"</td></tr><tr><td>" + g.words(2) + "</td><td>" + g.words(2) + "</td></tr></table>"
 	}
+	// decoys: (a) a link (never an unlikely candidate) that carries exactly the class / id of one of the marked
+	// subtrees, before and after the story; (b) a block whose class is an unlikely word while its id holds one of
+	// the words that vouch for content (or the other way round): not marked, so it is part of every variant - with
+	// neutral attributes in D and R, which is the same page to every reader
+	linkBefore, linkAfter := "", ""
+	for _, m := range marks {
+		if (m.how == "class" || m.how == "id") && m.tag != "img" && r.Intn(3) == 0 {
+			l := `<p>` + g.words(12) + ` <a href="/zqd/more.html"` + m.attrP + `>` + g.words(2) + `</a> ` + g.words(12) + `</p>`
+			if r.Intn(2) == 0 {
+				linkBefore = l
+			} else {
+				linkAfter = l
+			}
+			break
+		}
+	}
+	vouchedP, vouchedN := "", ""
+	if r.Intn(3) == 0 {
+		u := unlikelyWords[r.Intn(len(unlikelyWords))]
+		v := pickS(r, "article-part-two", "main-col", "content-2", "body-text", "column-b", "shadow-box")
+		inner := chunks(g, 30)
+		attrs := ` class="` + u + `" id="` + v + `"`
+		if r.Intn(2) == 0 {
+			attrs = ` id="` + u + `" class="` + v + `"`
+		}
+		vouchedP = `<div` + attrs + `>` + inner + `</div>`
+		vouchedN = `<div class="zqplain" id="zqvouched">` + inner + `</div>`
+	}
 	blockOf := func(m mk, variant string) string {
 		body := m.body
 		if m.tag == "span" {
@@ -176,11 +204,15 @@ func runUnlikely(c Case, e *env) []Event {
 			}
 		}
 		// white space around the marked element: deleting it must not glue the neighbouring words
-		story := `<div>` + run1 + " " + inline.String() + bare.String() + " " + run2 + half1 + nested.String() + `</div>` + between.String()
+		vouched := vouchedN
+		if variant == "P" {
+			vouched = vouchedP
+		}
+		story := `<div>` + run1 + " " + inline.String() + bare.String() + " " + run2 + half1 + nested.String() + `</div>` + vouched + between.String()
 		if half2 != "" {
 			story += `<div>` + half2 + `</div>`
 		}
-		return "<!DOCTYPE html><html><head></head><body>" + topTable + before.String() + "<div>" + story + sibling.String() + "</div>" + after.String() + "</body></html>"
+		return "<!DOCTYPE html><html><head></head><body>" + topTable + linkBefore + before.String() + "<div>" + story + sibling.String() + "</div>" + after.String() + linkAfter + "</body></html>"
 	}
 	var evs []Event
 	for i, v := range []string{"P", "D", "R"} {
